@@ -6,3 +6,7 @@ import ParryModel.C14.Theorems
 #print axioms C14.halfspacePfm3_spec
 #print axioms C14.convexBallShapes3_good
 #print axioms C14.halfspaceDispatch3_good
+#print axioms C14.compositeStep_spec
+#print axioms C14.wsInv_new
+#print axioms C14.compositeRun_ok
+#print axioms C14.compositeStep_parts
